@@ -150,6 +150,11 @@ pub fn for_each_case(
                 step(&s, "alias-amplification", stats, &mut n);
             }
         }
+        // a long %TAG prefix used by many short tags (every tag event carries the resolved prefix)
+        for plen in [400usize, 4000] {
+            let s = format!("%TAG !e! {}\n--- [{}]\n", "x".repeat(plen), "!e!a b, ".repeat(plen / 8));
+            step(&s, "tag-prefix-expansion", stats, &mut n);
+        }
         // collection keys nested in collection keys (every insertion hashes the whole key)
         for d in [40usize, 400] {
             let s = format!("{}a\n", "? ".repeat(d));
